@@ -33,7 +33,7 @@ Proof.
         destruct (IH P st ic env n r) as [H1 [H2 [H3 H4]]].
         rewrite H1, H2, H3. repeat split. rewrite <- H3. exact H4.
       * (* ADecl *)
-        cbn [run run_mono]. rewrite resolve_in_context_cur. apply IH.
+        cbn [run run_mono]. apply IH.
       * (* ACall *)
         cbn [run run_mono].
         destruct (lookup env v) as [rty|]; [|cbn; repeat split].
@@ -106,7 +106,8 @@ Proof.
   destruct (lookup_inst ic name) as [i|] eqn:E.
   - simpl. split; [exact Hok | symmetry; apply Hok; exact E].
   - destruct (fresh_inst P name) as [i|] eqn:F; simpl.
-    + split; [|reflexivity]. intros nm j Hj. rewrite lookup_inst_app in Hj.
+    + split; [|reflexivity]. destruct (i_generic i); [|exact Hok].
+      intros nm j Hj. rewrite lookup_inst_app in Hj.
       destruct (lookup_inst ic nm) as [j0|] eqn:E2.
       * inversion Hj; subst. apply Hok. exact E2.
       * destruct (str_eqb nm name) eqn:E3; [|discriminate].
@@ -132,7 +133,7 @@ Qed.
 (* the context a method body runs under depends on the receiver's struct type name only *)
 Lemma enter_pushes_fresh : forall P ic rty m ic1 c md,
   cache_ok P ic -> enter P ic rty m = Some (ic1, Some c, md) ->
-  exists i, fresh_inst P rty = Some i /\ c = i_map i.
+  exists i, fresh_inst P rty = Some i /\ i_generic i = true /\ c = i_map i.
 Proof.
   intros P ic rty m ic1 c md Hok. unfold enter.
   destruct (has_char c_lt rty).
@@ -141,7 +142,8 @@ Proof.
     simpl in Hs.
     destruct (nth_error P (i_block i)) as [b|]; [|discriminate].
     destruct (lookup_method (b_methods b) m); [|discriminate].
-    intros H. inversion H; subst. exists i. split; [symmetry; exact Hs | reflexivity].
+    destruct (i_generic i) eqn:G; [|discriminate].
+    intros H. inversion H; subst. exists i. split; [symmetry; exact Hs | split; [exact G | reflexivity]].
   - destruct (find_plain P rty) as [b|]; [|discriminate].
     destruct (lookup_method (b_methods b) m); discriminate.
 Qed.
@@ -484,7 +486,8 @@ Qed.
 (* the instance of Base<a1, ..., ak>: the first generic impl of Base with k parameters, parameter i bound to ai *)
 Lemma fresh_inst_flat_l : forall P b a k blk, ident b -> a <> [] -> Forall ident a ->
   find_generic P b (List.length a) = Some (k, blk) ->
-  fresh_inst P (show_f (FApp b a)) = Some {| i_block := k; i_map := build_map (b_params blk) a |}.
+  fresh_inst P (show_f (FApp b a)) =
+  Some {| i_block := k; i_map := build_map (b_params blk) a; i_generic := negb (strs_eqb a (b_params blk)) |}.
 Proof.
   intros P b a k blk Hb Hne Ha Hg. unfold fresh_inst. rewrite (impl_type_args_flat_l b a Hb Hne Ha).
   destruct a as [|x r]; [congruence|]. rewrite Hg. reflexivity.
@@ -508,7 +511,7 @@ Definition w_cell : block := {| b_base := s2l "Cell"; b_params := [w_T]; b_metho
 Lemma impl_type_args_nested_refuted_l :
   impl_type_args (s2l "Cell<Duo<int, long>>") = Some (s2l "Cell", [s2l "Duo<int"; s2l "long>"]) /\
   fresh_inst [w_cell] (s2l "Cell<Duo<int, long>>") = None /\
-  fresh_inst [w_cell] (s2l "Cell<Box<long>>") = Some {| i_block := 0; i_map := [(w_T, s2l "Box<long>")] |}.
+  fresh_inst [w_cell] (s2l "Cell<Box<long>>") = Some {| i_block := 0; i_map := [(w_T, s2l "Box<long>")]; i_generic := true |}.
 Proof. repeat split; vm_compute; reflexivity. Qed.
 
 (* a run-time error inside a callee of another instantiation leaves the callee's context on the stack:
@@ -522,6 +525,21 @@ Lemma error_leaves_context_refuted_l :
   let st' := stack_after_try 5 [w_cell2] st [] [(s2l "o", s2l "Cell<long>")] 1 (s2l "o") (s2l "fail") in
   st' <> st /\ resolve_type_in_context st w_T = s2l "int" /\ resolve_type_in_context st' w_T = s2l "long".
 Proof. cbv zeta. split; [|split]; vm_compute; [discriminate | reflexivity | reflexivity]. Qed.
+
+(* known finding C11-impl-local-struct-of-T: a local declared `Box<T> l;` inside a method of Cell<T> keeps the struct
+   type name "Box<T>"; a method of impl ... for Box<E> called on it runs with E bound to the TEXT "T" (which the pushed
+   context cannot resolve further: sizeof falls back to 8) - the hand-specialised copy of Cell<short> observes short *)
+Definition w_E : str := s2l "E".
+Definition w_m0 : method := {| m_params := []; m_body := [AObs w_E] |}.
+Definition w_box : block := {| b_base := s2l "Box"; b_params := [w_E]; b_methods := [(s2l "m0", w_m0)] |}.
+Definition w_loc : method :=
+  {| m_params := []; m_body := [ADecl (s2l "l") (s2l "Box<T>"); ACall (s2l "l") (s2l "m0")] |}.
+Definition w_cell4 : block := {| b_base := s2l "Cell"; b_params := [w_T]; b_methods := [(s2l "loc", w_loc)] |}.
+
+Lemma local_of_parameter_type_refuted_l :
+  r_out (run_main 20 [w_cell4; w_box] [] (s2l "Cell<short>") (s2l "loc") 3) = [s2l "T"] /\
+  r_out (run_main 20 [w_cell4; w_box] [] (s2l "Cell<short>") (s2l "loc") 3) <> [s2l "short"].
+Proof. split; [vm_compute; reflexivity | vm_compute; discriminate]. Qed.
 
 (* the hypothesis of stack discipline and flat resolution is satisfiable: a method of Cell<int> that calls a
    method of Cell<long> and then observes T again *)
